@@ -196,6 +196,8 @@ pub struct World {
     pub tals: Vec<TalSpec>,
     pub repos: Vec<RrdpRepoSpec>,
     pub next_serial: u64,
+    /// All CA certificates carry the same issuer and subject name.
+    pub same_names: bool,
 }
 
 impl World {
@@ -438,6 +440,7 @@ impl Compiler<'_> {
             rpki_notify: self.world.notify_uri(target),
             ca_issuer,
             crl_uri: crl_uri_real.clone(),
+            same_name: self.world.same_names,
         };
         let key = format!("cert:{cspec:?}:{fault:?}");
         let mut bytes = self.cache.get_or(key, || pki::make_ca_cert(&cspec));
